@@ -74,6 +74,12 @@ def h_is_realizable(ctx):
     before = snapshot(aut)
     f = ctx.fn(gr1.is_realizable)
     with contextlib.redirect_stdout(io.StringIO()):
+        if ctx.p.get('asked_before', True):
+            # the same automaton was asked before under the OTHER causality form
+            # (no verdict may be remembered across a change of aut.plus_one)
+            aut.plus_one = not ctx.p['plus_one']
+            ctx.call(f, win, aut, label='is_realizable')
+            aut.plus_one = ctx.p['plus_one']
         if ctx.p.get('keyword', not ctx.p.get('moore')):
             r = ctx.call(f, win=win, aut=aut, label='is_realizable')
         else:
@@ -103,6 +109,9 @@ def h_make_init(ctx):
     # requires: the realizability verdict holds (the transducer
     # constructors assert it before calling `_make_init`)
     w.assume(verdict)
+    if ctx.p.get('int_flag', not ctx.p.get('moore')):
+        # the flag given as 1 / 0: every reader of `aut.plus_one` tests its truth value
+        aut.plus_one = 1 if plus_one else 0
     if ctx.p.get('stale_impl', plus_one):
         # an implementation was synthesized earlier on the same automaton:
         # its initial condition is still stored
